@@ -390,7 +390,7 @@ impl<'a> Seq<'a> {
         walk_order(&self.root).into_iter().filter(|(p, d)| !*d && p.matches('/').count() == 2).map(|(p, _)| {
             let parts: Vec<&str> = p.split('/').collect();
             (p.clone(), parts[1].to_string(), parts[2].to_string())
-        }).collect()
+        }).filter(|(_, kd, _)| kd.len() >= 2).collect()
     }
 
     fn write_file(&mut self, ctx: &mut Ctx, rel: &str, content: &[u8]) {
@@ -635,7 +635,7 @@ impl<'a> Seq<'a> {
 }
 
 pub fn run(ctx: &mut Ctx) {
-    let nseq: u64 = if ctx.quick() { 250 } else { 3000 };
+    let nseq: u64 = if ctx.quick() { 300 } else { 3000 };
     let nops = 60;
     let verbose = std::env::var("XV_VERBOSE").is_ok();
     let root = tmp_root("cache_seq");
